@@ -321,8 +321,10 @@ pub fn families(id: &str, tier: &str) -> Vec<Spec> {
             out.retain(|s| matches!(s.scn, Scn::Ps(_)));
             if thorough {
                 ps_set(&[(&[3], 2), (&[2, 1], 3), (&[3, 3], 2)], false, false, false, 4, &mut out);
-                // tiny topologies without any bound
-                ps_set(&[(&[1], 1), (&[2], 1), (&[1], 2)], false, false, false, 64, &mut out);
+                // tiny topologies, deep (the tree is infinite without a bound: a sink may answer
+                // Pending again after every unblock)
+                let deep: usize = std::env::var("VERIF_DEEP").ok().and_then(|s| s.parse().ok()).unwrap_or(10);
+                ps_set(&[(&[1], 1), (&[2], 1), (&[1], 2)], false, false, false, deep, &mut out);
             }
         }
         "C02" | "C10" => {
